@@ -105,7 +105,7 @@ func malformedChild(args []string) {
 			}
 		}
 		if hung {
-			ln = mfLine{K: j.K, C: j.C, Format: j.Fmt, Mode: j.Mode, Seed: j.Seed, EC: j.EC, Obs: mfHangObs(j), Evs: []mfEvent{{"Hang", fmt.Sprintf("no return within %v, twice", mfHangWait)}}, Res: "hang"}
+			ln = mfLine{K: j.K, C: j.C, Format: j.Fmt, Mode: j.Mode, Seed: j.Seed, EC: j.EC, LC: j.LC, Obs: mfHangObs(j), Evs: []mfEvent{{"Hang", fmt.Sprintf("no return within %v, twice", mfHangWait)}}, Res: "hang"}
 			emit(ln)
 			f.Close()
 			os.Exit(4)
@@ -116,7 +116,7 @@ func malformedChild(args []string) {
 }
 
 func mfHangObs(j mfJob) *mfEditObs {
-	if j.K != "edit" {
+	if j.K != "edit" && j.K != "ledit" {
 		return nil
 	}
 	return &mfEditObs{Res: "hang", InvalidAt: []int{}}
@@ -141,6 +141,8 @@ func mfRunJob(j mfJob) mfLine {
 		return mfRunFuzz(j)
 	case "edit":
 		return mfRunEdit(*j.EC)
+	case "ledit":
+		return mfRunLineEdit(*j.LC)
 	}
 	machinery("unknown job kind %q", j.K)
 	return mfLine{}
